@@ -431,7 +431,8 @@ impl Env {
             Load::Provider(k) => {
                 let one = provider_script(k);
                 let mut all = vec![];
-                for _ in 0..(ENV_MAX_USES + 2) {
+                // (a very long script is used by a single case: the lag witness)
+                for _ in 0..(if k >= 1000 { 2 } else { ENV_MAX_USES + 2 }) {
                     all.extend(one.clone());
                 }
                 Some(ScriptedProvider::start(all))
@@ -656,8 +657,44 @@ fn run_case(env: &mut Env, c: &Case) -> Outcome {
     out
 }
 
+/// EVENT_CHANNEL_CAPACITY of the stream kind's broadcast channel, read from the source the harness was built against
+fn channel_capacity(repo: &Path, kind: Kind) -> usize {
+    let rel = match kind {
+        Kind::Session => "crates/ripd/src/runner.rs",
+        Kind::Task => "crates/ripd/src/tasks/mod.rs",
+        Kind::Thread => "crates/ripd/src/continuities.rs",
+    };
+    let text = std::fs::read_to_string(repo.join(rel)).unwrap_or_default();
+    let key = "const EVENT_CHANNEL_CAPACITY: usize =";
+    text.find(key)
+        .and_then(|i| {
+            let rest = &text[i + key.len()..];
+            let end = rest.find(';')?;
+            rest[..end].trim().replace('_', "").parse::<usize>().ok()
+        })
+        .unwrap_or(16_384)
+}
+
+/// The signature of a receiver that overflowed (tokio broadcast: `RecvError::Lagged`, which the handlers swallow) and
+/// was read only after the producer stopped: ascending, no duplicate, exactly ONE gap, and what follows the gap is
+/// exactly the last `cap` frames of the stream (the receiver resumes at the oldest frame the channel still holds).
+/// A frame lost at the join (S8) does not look like this unless the stream is longer than the capacity and the lost
+/// frame happens to be frame n-cap-1.
+fn is_lag_signature(seqs: &[u64], n: u64, cap: usize) -> bool {
+    if n as usize <= cap || seqs.is_empty() || !seqs.windows(2).all(|w| w[0] < w[1]) || seqs.last() != Some(&(n - 1)) {
+        return false;
+    }
+    // first element after each gap (a body that does not start at 0 has a leading gap)
+    let mut resume: Vec<u64> = seqs.windows(2).filter(|w| w[1] != w[0] + 1).map(|w| w[1]).collect();
+    if seqs[0] != 0 {
+        resume.insert(0, seqs[0]);
+    }
+    // tokio resumes at the oldest retained slot: capacity or capacity-1 frames before the end
+    resume.len() == 1 && ((n - resume[0]) as usize == cap || (n - resume[0]) as usize + 1 == cap)
+}
+
 /// independent oracle: what the property says, on the implementation alone
-fn oracle(c: &Case, o: &Outcome) -> Option<(String, String)> {
+fn oracle(c: &Case, o: &Outcome, cap: usize) -> Option<(String, String)> {
     if !o.panicked.is_empty() {
         return Some((format!("actor(s) {:?} panicked", o.panicked), "panic".into()));
     }
@@ -685,8 +722,19 @@ fn oracle(c: &Case, o: &Outcome) -> Option<(String, String)> {
             }
             continue;
         }
+        if *seqs != want && is_lag_signature(seqs, n, cap) {
+            let first_missing = (0..n).find(|s| seqs.binary_search(s).is_err()).unwrap_or(0);
+            return Some((
+                format!(
+                    "{} stream of {} frames, subscriber {} (attached early, read late): {} frames from seq {} on were skipped silently - the receiver overflowed the {}-frame channel and the handler swallows RecvError::Lagged; body = 0..{} then the last {} frames",
+                    c.kind.name(), n, i + 1, n as usize - seqs.len(), first_missing, cap, first_missing, n - first_missing - (n - seqs.len() as u64)
+                ),
+                "frames_skipped_after_lag".into(),
+            ));
+        }
         if *seqs != want {
-            let missing: Vec<u64> = want.iter().cloned().filter(|s| !seqs.contains(s)).collect();
+            let set: BTreeSet<u64> = seqs.iter().cloned().collect();
+            let missing: Vec<u64> = want.iter().cloned().filter(|s| !set.contains(s)).collect();
             let dup = seqs.iter().collect::<BTreeSet<_>>().len() != seqs.len();
             let sorted = seqs.windows(2).all(|w| w[0] < w[1]);
             let class = if !missing.is_empty() {
@@ -821,6 +869,7 @@ fn main() {
             (Kind::Thread, Load::Messages(4)),
         ]);
     }
+    let repo_root = a.repo();
     let mut r = Rng::new(a.seed);
     for (kind, load) in &loads {
         let trace = producer_points(*kind, load);
@@ -956,11 +1005,11 @@ fn main() {
             res.bump("attached_inside_run");
             distinct.add(&format!("{:?}|{:?}|{:?}", c.kind, c.load, o.events));
         }
-        if let Some((what, class)) = oracle(c, &o) {
+        if let Some((what, class)) = oracle(c, &o, channel_capacity(&repo_root, c.kind)) {
             // shrink the schedule prefix while the same class keeps failing
             let base = c.clone();
             let cls = class.clone();
-            let sched = if c.sched.len() <= 60 {
+            let sched = if c.sched.len() <= 60 && class != "frames_skipped_after_lag" {
                 shrink_vec(c.sched.clone(), |s| {
                     let mut cc = base.clone();
                     cc.sched = s.to_vec();
@@ -970,7 +1019,7 @@ fn main() {
                         Sched::uninstall();
                         env_slot = None;
                     }
-                    r.ok().and_then(|o| oracle(&cc, &o)).map(|f| f.1) == Some(cls.clone())
+                    r.ok().and_then(|o| oracle(&cc, &o, channel_capacity(&repo_root, cc.kind))).map(|f| f.1) == Some(cls.clone())
                 })
             } else {
                 c.sched.clone()
@@ -980,7 +1029,11 @@ fn main() {
             res.oracle_violations.push(OracleViolation { case_id: i as i64, what, class, replay: case_json(&cc) });
         }
         if !a.oracle_only() {
-            if events_wellformed(&o) {
+            if o.truth.len() > 4000 {
+                // the lag witness: a stream longer than the channel capacity; the Coq side of this is c06_lag_refuted
+                // (vm_compute over an 18 000-frame schedule is out of budget)
+                res.bump("not_compared_with_model(stream longer than 4000 frames)");
+            } else if events_wellformed(&o) {
                 let id = w.push(coq_case(c, &o));
                 if res.case_index.len() < 3000 {
                     res.case_index.insert(id.to_string(), case_json(c));
